@@ -792,9 +792,18 @@ impl ScanScheduler {
     ) {
         let num_iops = request.len() as u32;
 
-        let when_all_io_done = move |bytes_and_permits| {
-            // We don't care if the receiver has given up so discard the result
-            let _ = tx.send(bytes_and_permits);
+        let io_queue = self.io_queue.clone();
+        let when_all_io_done = move |response: Response| {
+            if let Err(response) = tx.send(response) {
+                // The receiver has given up so nobody will consume the data.  Return its
+                // backpressure reservation now, otherwise it is held forever and can
+                // starve later requests.
+                io_queue.on_bytes_consumed(
+                    response.num_bytes,
+                    response.priority,
+                    response.num_reqs,
+                );
+            }
         };
 
         let dest = Arc::new(Mutex::new(Box::new(MutableBatch::new(
@@ -837,19 +846,54 @@ impl ScanScheduler {
 
         self.do_submit_request(reader, request, tx, priority);
 
-        let io_queue = self.io_queue.clone();
-
-        rx.map(move |wrapped_rsp| {
-            // Right now, it isn't possible for I/O to be cancelled so a cancel error should
-            // not occur
-            let rsp = wrapped_rsp.unwrap();
-            io_queue.on_bytes_consumed(rsp.num_bytes, rsp.priority, rsp.num_reqs);
-            rsp.data
-        })
+        PendingResponse {
+            rx,
+            io_queue: self.io_queue.clone(),
+        }
     }
 
     pub fn stats(&self) -> ScanStats {
         ScanStats::new(self.stats.as_ref())
+    }
+}
+
+/// The response to a submitted request
+///
+/// The backpressure reservation of the request is returned when the response is consumed,
+/// or when the caller drops this future without consuming the response.
+struct PendingResponse {
+    rx: oneshot::Receiver<Response>,
+    io_queue: Arc<IoQueue>,
+}
+
+impl Future for PendingResponse {
+    type Output = Result<Vec<Bytes>>;
+
+    fn poll(
+        mut self: std::pin::Pin<&mut Self>,
+        cx: &mut std::task::Context<'_>,
+    ) -> std::task::Poll<Self::Output> {
+        self.rx.poll_unpin(cx).map(|wrapped_rsp| {
+            // Right now, it isn't possible for I/O to be cancelled so a cancel error should
+            // not occur
+            let rsp = wrapped_rsp.unwrap();
+            self.io_queue
+                .on_bytes_consumed(rsp.num_bytes, rsp.priority, rsp.num_reqs);
+            rsp.data
+        })
+    }
+}
+
+impl Drop for PendingResponse {
+    fn drop(&mut self) {
+        // If the response was already delivered but never consumed then the reservation is
+        // still ours to return.  If it has not been delivered yet then closing the channel
+        // makes the sender return it.
+        self.rx.close();
+        if let Ok(Some(rsp)) = self.rx.try_recv() {
+            self.io_queue
+                .on_bytes_consumed(rsp.num_bytes, rsp.priority, rsp.num_reqs);
+        }
     }
 }
 
